@@ -83,7 +83,7 @@ CLAIMED["C19"] = dict(
          "on every path the block entries are the identical op-DAGs of the dense routine (or exactly real-equal), every other stored value keeps its initial symbol, "
          "inner/outer index arrays are unchanged and the matrix stays compressed; entries absent from a published pattern are identically zero for all a.",
     note="A1 for the support clauses; A6 incl. symbolic execution of Eigen's sparse containers and of the pattern globals' static initialisers; A7 (groups, offsets {0,1,3}, "
-         "host sizes Dof+{0,2,5}, double); A8.",
+         "host sizes Dof+{0,1,2,5}, Hessian hosts with n, n+2 and n-1 stacked blocks, double); A8.",
     tech=IRSX + "structural op-DAG identity and frames on Eigen::SparseMatrix storage; exact normal form for the support clauses", ref="4 C19")
 CLAIMED["C12"] = dict(
     text="Shims evaluate both sides of each relation of the property (ConstantVelocity, out-of-range values, end points, derivatives, concat_local/global, crop with "
